@@ -39,7 +39,7 @@ ASSUMPTIONS = [
     "action law / projection clauses asserted only when transformTR and transformInv are involutive and commute "
     "(always true for the transforms used inside wannierberri); single transform_tensor calls are compared with the "
     "explicit einsum for every Transform",
-    "k-points are rational with denominators <= 1000, so distinct images differ by >= 8e-5 >> SYMMETRY_PRECISION (no ties)",
+    "k-points are rational (denominators <= 1000, or special point + m*1e-5), so distinct images differ by >= 1e-5 = 10 x SYMMETRY_PRECISION (no ties)",
     "a lattice counts as incompatible only if a generator's lattice-basis matrix is > 1e-4 from integers (code tolerance "
     "1e-6); between 1e-9 and 1e-4 the case is inconclusive (tie)",
     "rank-0 data without a leading axis (0-d arrays) are not generated: Transform.__call__ indexes res[:] (the code's own "
@@ -76,9 +76,17 @@ def _key(ref, Ofull, tr, L, what):
 def _make_group(spec, L, Rg, latmode, dup=None):
     from wannierberri.symmetry.point_symmetry import PointGroup
     gens, used = pgroup.build_wb_generators(spec, Rg)
-    if dup is not None and gens:
+    # every generator, in whatever form it is written, must denote the intended operation
+    from wannierberri.symmetry import point_symmetry as ps
+    fulls, trs = pgroup.reference_generators(spec, Rg)
+    for gi, (gen, Of, tr) in enumerate(zip(gens, fulls, trs)):
+        sym = gen if isinstance(gen, ps.PointSymmetry) else ps.from_string_prod(gen)
+        if np.abs(np.array(sym.R) * sym.iInv - Of).max() > 1e-12 or bool(sym.TR) != bool(tr):
+            raise Violation("generator-meaning", f"generator {gi} ({gen if isinstance(gen, str) else used[gi]}) is not the "
+                                                 f"operation it denotes")
+    if dup is not None and spec["gens"]:
         # the same operation given a second time (possibly written differently, e.g. 'Mx' and 'C2x*Inversion')
-        op = spec["gens"][dup["idx"] % len(gens)]
+        op = spec["gens"][dup["idx"] % len(spec["gens"])]
         g2, f2 = pgroup.wb_symmetry(op, dup["form"], Rg, dup["flip"])
         gens.insert(dup["pos"] % (len(gens) + 1), g2)
         used.append(f2)
